@@ -65,6 +65,7 @@ type Scenario struct {
 	NoRecovery  bool                `json:"norecovery"`
 	MaxAgeS     int                 `json:"maxages"`
 	KillAt      int                 `json:"killat"`
+	CancelStart bool                `json:"cancelstart"` // the context given to Start is cancelled as soon as Start has returned
 	MaxSubmitMs int                 `json:"maxsubmitms"`
 
 	curTr, curK int
@@ -445,7 +446,13 @@ func runEngine(rec *recorder, sc *Scenario) error {
 	}
 	for _, pr := range runs {
 		s.emit(pr.pl, func() ev { return ev{"ev": "StartCall"} })
-		err := ws.Start(ctx, pr.id)
+		sctx, cancelStart := context.WithCancel(ctx)
+		err := ws.Start(sctx, pr.id)
+		if sc.CancelStart {
+			cancelStart() // Start's documentation: cancelling the Context does not stop execution
+		} else {
+			defer cancelStart()
+		}
 		s.emit(pr.pl, func() ev {
 			return ev{"ev": "StartRet", "ok": err == nil, "after": false, "known": true, "stale": false}
 		})
